@@ -5,4 +5,6 @@ m["engines"] += [
   "kind_free_text": "TLC behaviours (exhaustive + simulated) of the register state machine replayed step by step, all registers compared"},
  {"name": "ctor", "path": "spec/Ctor.tla + spec/mc/MC_Ctor.tla + harness/replay_ctor.py", "serves_properties": ["C13"],
   "kind_free_text": "constructor / validator acceptance vectors"},
+ {"name": "dimsets", "path": "spec/DimSets.tla + spec/mc/MC_DimSets.tla + harness/replay_dimsets.py", "serves_properties": ["C14"],
+  "kind_free_text": "ordered-list model of DimensionSet histories replayed step by step"},
 ]
